@@ -144,7 +144,10 @@ Fixpoint ms_collect_min (minb : Z) (st : state) (lst : list group) (ts : list Z)
 (** per point: Some group id it is written to, or None = dropped (AddDropped) *)
 Definition write_points (minb : Z) (st : state) (ts : list Z) : option (state * list (option N)) :=
   match ms_collect_min minb st [] ts with
-  | Some (st', lst) => Some (st', map (fun t => option_map g_id (sg_at lst t)) ts)
+  | Some (st', lst) =>
+      (* second loop (repair c26a5a4c30): a point older than the bound is dropped
+         before the list is consulted *)
+      Some (st', map (fun t => if t <? minb then None else option_map g_id (sg_at lst t)) ts)
   | None => None
   end.
 
